@@ -572,6 +572,336 @@ theorem map_refines (O : Ops σ) (c : Bool) (s : σ)
 
 
 
+/-! ## arrayDefineOwnProperty = §15.4.5.1 -/
+
+theorem write_same (k : Key) (p : PropD) (l : List (Key × PropD)) (h : lookup k l = some p) : write k p l = l := by
+  induction l with
+  | nil => simp [lookup] at h
+  | cons q r ih =>
+    obtain ⟨k', p'⟩ := q
+    by_cases hk : k' = k
+    · subst hk; simp [lookup] at h; subst h; simp [write]
+    · simp only [lookup, hk, if_false] at h
+      simp [write, hk, ih h]
+
+theorem write_write (k : Key) (p q : PropD) (l : List (Key × PropD)) : write k p (write k q l) = write k p l := by
+  induction l with
+  | nil => simp [write]
+  | cons x r ih =>
+    obtain ⟨k', p'⟩ := x
+    by_cases hk : k' = k
+    · simp [write, hk]
+    · simp [write, hk, ih]
+
+theorem cmpReal_refl (x : FV) (h : isNaN x = false) : cmpReal x x = some .eq := by
+  cases x with
+  | nan => simp [isNaN] at h
+  | inf s => simp [cmpReal]
+  | fin s m e => simp [cmpReal]
+
+theorem sameValue_refl (E : Env) (v : Val) : sameValue E v v = true := by
+  have num : ∀ x : FV, (if (isNaN x && isNaN x) = true then true
+      else if eqNum x x = true then (if isZero x = true then signBit x == signBit x else true) else false) = true := by
+    intro x
+    cases hn : isNaN x with
+    | true => simp
+    | false => simp [eqNum, cmpReal_refl x hn]
+  cases v <;> first | (simp only [sameValue]; exact num _) | simp [sameValue]
+
+/-- a successful objectDefineOwnProperty is idempotent: defining the same (data) descriptor again on the result
+    succeeds and changes nothing -/
+theorem odp_idem (E : Env) (k : Key) (d : Desc) (t0 t : Bool) (o o1 : Obj)
+    (hng : d.v.isSome = true ∨ d.w.isSome = true)
+    (h : objectDefineOwnProperty E k d t0 o = .ok true o1) :
+    objectDefineOwnProperty E k d t o1 = .ok true o1 := by
+  obtain ⟨dv, dw, de, dc⟩ := d
+  simp only at hng
+  unfold objectDefineOwnProperty at h
+  cases hl : lookup k o.props with
+  | none =>
+    rw [hl] at h
+    simp only at h
+    by_cases he : o.ext = true
+    · simp only [he, Bool.not_true, Bool.false_eq_true, if_false] at h
+      injection h with _ h
+      subst h
+      unfold objectDefineOwnProperty
+      simp only [lookup_write_self, Desc.isEmpty, Desc.isGeneric, Desc.isData, write_write]
+      cases dv <;> cases dw <;> simp at hng <;> cases de <;> cases dc <;> simp [sameValue_refl]
+      all_goals (intros; simp_all)
+    · simp [he, reject] at h; cases t0 <;> simp at h
+  | some p =>
+    obtain ⟨pv, pw, pe, pc⟩ := p
+    rw [hl] at h
+    simp only [Desc.isEmpty, Desc.isGeneric, Desc.isData, reject] at h
+    rcases dv with _ | v <;> rcases dw with _ | (_ | _) <;> simp at hng <;> rcases de with _ | (_ | _) <;>
+      rcases dc with _ | (_ | _) <;> cases pw <;> cases pe <;> cases pc <;> cases t0 <;> simp at h
+    all_goals (try (split at h <;> simp at h))
+    all_goals (first | (obtain ⟨_, _, rfl⟩ := h) | (obtain ⟨_, rfl⟩ := h) | (obtain rfl := h))
+    all_goals (simp [objectDefineOwnProperty, lookup_write_self, write_write, sameValue_refl, Desc.isEmpty, Desc.isGeneric,
+                 Desc.isData, reject])
+    all_goals (intros; simp_all)
+
+theorem obj_eta (o : Obj) : ({ o with props := o.props } : Obj) = o := by cases o; rfl
+
+theorem odp_eq (E : Env) (k : Key) (d : Desc) (t : Bool) (h : d.v.isSome = true ∨ d.w.isSome = true) :
+    objectDefineOwnProperty E k d t = Spec.defineOwnDefault E k d t := by
+  funext s
+  exact objectDefineOwnProperty_refines E k d t s (by rcases h with h | h; exact Or.inl h; exact Or.inr (Or.inl h))
+
+theorem oldLen_eq (o : Obj) : Spec.oldLen o = arrLength o := rfl
+
+/-- the index branch: arrayDefineOwnProperty on a canonical index = §15.4.5.1 step 4 -/
+theorem defineIndex_refines (E : Env) (m : Nat) (d : Desc) (t : Bool) (o : Obj) (hwf : WFArr o)
+    (hng : d.v.isSome = true ∨ d.w.isSome = true) :
+    arrayDefineIndex E (.idx m) d t m o = Spec.arrayDefineIdx E (.idx m) d t m o := by
+  obtain ⟨ha, n, w, hl, hn, hb⟩ := hwf
+  have hlp : (lookup Key.length o.props).getD ⟨.int 0, false, false, false⟩ = ⟨.int (n : Nat), w, false, false⟩ := by
+    simp only [LenProp] at hl; simp [hl]
+  simp only [arrayDefineIndex, Spec.arrayDefineIdx, oldLen_eq, arrLength_of o n w hl, lengthWritable_of o n w hl, hlp, reject]
+  by_cases hrej : m ≥ n ∧ w = false
+  · simp only [hrej, and_self, if_true]
+  · simp only [hrej, if_false, bind, M.bind, odp_eq E (.idx m) d false hng]
+    cases hr : Spec.defineOwnDefault E (.idx m) d false o with
+    | err e s => rfl
+    | ok b s =>
+      cases b with
+      | false => cases t <;> simp [M.throw, pure, M.pure, reject]
+      | true =>
+        simp only [Bool.not_true, Bool.false_eq_true, if_false]
+        by_cases hge : m ≥ n
+        · simp only [hge, if_true]
+          rw [odp_eq E .length _ false (Or.inl rfl)]
+        · simp only [hge, if_false]
+          rw [← odp_eq E (.idx m) d false hng] at hr
+          rw [odp_idem E (.idx m) d false t o s hng hr]
+          rfl
+
+
+/-- on a state whose length property is ⟨N, writable⟩: {writable:false} alone turns it read-only -/
+theorem odp_length_wfalse (E : Env) (o : Obj) (N : Nat) (hl : LenProp o N true) :
+    Spec.defineOwnDefault E .length { w := some false } false o
+      = .ok true { o with props := write .length ⟨.int N, false, false, false⟩ o.props } := by
+  rw [← odp_eq E .length { w := some false } false (Or.inr rfl)]
+  simp only [LenProp] at hl
+  simp [objectDefineOwnProperty, hl, Desc.isEmpty, Desc.isGeneric, Desc.isData]
+
+/-- the tail of the length branch (after the first define succeeded) = §15.4.5.1 steps 3.l–3.n -/
+theorem shrinkTail_refines (E : Env) (N : Nat) (D : Desc) (t : Bool) (cnt : Nat) (o1 : Obj)
+    (hc : Cok D) (hv : D.v = some (.int N)) (hw : D.w ≠ some false) (nw : Bool)
+    (ha : o1.isArr = true) (hl : LenProp o1 N true) (hb : Bound o1 (N + cnt)) (hlt : N + cnt < 2^32) :
+    arrayShrinkTail E N D nw t cnt o1 = Spec.truncateTail E N D nw t cnt o1 := by
+  have hs := shrink_inv E N D nw t hc cnt o1 ha hl hb hlt
+  simp only [arrayShrinkTail, Spec.truncateTail, bind, M.bind, ← shrinkLoop_refines]
+  cases hr : shrinkLoop E N D nw t cnt o1 with
+  | err e o2 => rfl
+  | ok r o2 =>
+    rw [hr] at hs
+    cases r with
+    | some b => rfl
+    | none =>
+      obtain ⟨ha2, hl2, hb2⟩ := hs
+      simp only
+      cases nw with
+      | true =>
+        simp only [Bool.not_true, Bool.false_eq_true, if_false]
+        rw [odp_length_ok E o2 N N D t hl2 hv hc]
+        have hw' : D.w.getD true = true := by
+          cases hD : D.w with
+          | none => rfl
+          | some b => cases b with
+            | true => rfl
+            | false => exact absurd hD hw
+        rw [hw']
+        have hsame : ({ o2 with props := write .length ⟨.int N, true, false, false⟩ o2.props } : Obj) = o2 := by
+          rw [write_same _ _ _ hl2]
+        rw [hsame]
+        rfl
+      | false =>
+        simp only [Bool.not_false, if_true, M.bind]
+        have hv' : ({ D with w := some false } : Desc).v = some (.int N) := hv
+        have h1 := odp_length_ok E o2 N N { D with w := some false } false hl2 hv' hc
+        rw [h1]
+        simp only []
+        rw [odp_idem E .length { D with w := some false } false t o2 _ (Or.inl (by rw [hv']; rfl)) h1]
+        rw [odp_length_wfalse E o2 N hl2]
+        rfl
+
+/-- the "length" branch: arrayDefineOwnProperty = §15.4.5.1 step 3, outside the region
+    `length_same_value_not_writable` -/
+theorem setLength_refines (E : Env) (d : Desc) (t : Bool) (N : Nat) (o : Obj) (hwf : WFArr o) (hN : N < 2^32)
+    (hreg : ¬ (N = arrLength o ∧ lengthWritable o = false)) :
+    arraySetLength E d t N o = Spec.arraySetLen E d t N o := by
+  obtain ⟨ha, n, w, hl, hn, hb⟩ := hwf
+  have hlp : (lookup Key.length o.props).getD ⟨.int 0, false, false, false⟩ = ⟨.int (n : Nat), w, false, false⟩ := by
+    simp only [LenProp] at hl; simp [hl]
+  rw [arrLength_of o n w hl, lengthWritable_of o n w hl] at hreg
+  simp only [arraySetLength, Spec.arraySetLen, oldLen_eq, arrLength_of o n w hl, lengthWritable_of o n w hl, hlp, reject]
+  by_cases hgt : N > n
+  · have : N ≥ n := by omega
+    simp only [hgt, this, if_true]
+    rw [odp_eq E .length _ t (Or.inl rfl)]
+  · simp only [hgt, if_false]
+    -- the common second half: the chain define; tail on a writable length with N ≤ n
+    have chain : ∀ (D : Desc) (nw : Bool), D.v = some (.int N) → D.w ≠ some false → w = true →
+        ((do let ok ← objectDefineOwnProperty E .length D t
+             if !ok then pure false else arrayShrinkTail E N D nw t (n - N)) : M Obj Bool) o
+        = ((do let succeeded ← Spec.defineOwnDefault E .length D t
+               if !succeeded then pure false else Spec.truncateTail E N D nw t (n - N)) : M Obj Bool) o := by
+      intro D nw hDv hDw hw
+      subst hw
+      simp only [bind, M.bind, ← odp_eq E .length D t (Or.inl (by rw [hDv]; rfl))]
+      by_cases hc : Cok D
+      · rw [odp_length_ok E o n N D t hl hDv hc]
+        simp only [Bool.not_true, Bool.false_eq_true, if_false]
+        have hw' : D.w.getD true = true := by
+          cases hD : D.w with
+          | none => rfl
+          | some b => cases b with
+            | true => rfl
+            | false => exact absurd hD hDw
+        rw [hw']
+        refine shrinkTail_refines E N D t (n - N)
+          { o with props := write .length ⟨.int N, true, false, false⟩ o.props } hc hDv hDw nw ha ?_ ?_ ?_
+        · simp [LenProp, lookup_write_self]
+        · intro i hi1 hi2
+          simp only at hi2
+          rw [lookup_write_ne .length (.idx i) _ _ (by intro e; cases e)] at hi2
+          have := hb i hi1 hi2; omega
+        · omega
+      · rw [odp_length_rej E o n true D t hl (by rw [hDv]; rfl) hc]
+        cases t <;> rfl
+    by_cases heq : N = n
+    · subst heq
+      have hw : w = true := by
+        cases w with
+        | true => rfl
+        | false => exact absurd ⟨rfl, rfl⟩ hreg
+      subst hw
+      simp only [Nat.le_refl, ge_iff_le, if_true, Bool.not_true, Bool.false_eq_true, if_false]
+      -- the specification does one define; otto does define; (empty loop); define again
+      have hsame : ({ o with props := write .length ⟨.int N, true, false, false⟩ o.props } : Obj) = o := by
+        rw [write_same _ _ _ hl]
+      -- newWritable: one descriptor D throughout
+      have eqT : ∀ D : Desc, D.v = some (.int N) → D.w ≠ some false →
+          ((do let ok ← objectDefineOwnProperty E .length D t
+               if !ok then pure false else arrayShrinkTail E N D true t (N - N)) : M Obj Bool) o
+          = Spec.defineOwnDefault E .length D t o := by
+        intro D hDv hDw
+        rw [← odp_eq E .length D t (Or.inl (by rw [hDv]; rfl))]
+        simp only [bind, M.bind]
+        by_cases hc : Cok D
+        · have hw' : D.w.getD true = true := by
+            cases hD : D.w with
+            | none => rfl
+            | some b => cases b with
+              | true => rfl
+              | false => exact absurd hD hDw
+          rw [odp_length_ok E o N N D t hl hDv hc, hw', hsame]
+          simp only [Bool.not_true, Bool.false_eq_true, if_false, Nat.sub_self, arrayShrinkTail, shrinkLoop, bind, M.bind,
+            pure, M.pure]
+          rw [odp_length_ok E o N N D t hl hDv hc, hw', hsame]
+        · rw [odp_length_rej E o N true D t hl (by rw [hDv]; rfl) hc]
+          cases t <;> rfl
+      -- writable:false requested: define with writable:true, then twice with writable:false
+      have eqF : ∀ e c : Option Bool,
+          ((do let ok ← objectDefineOwnProperty E .length ⟨some (.int N), some true, e, c⟩ t
+               if !ok then pure false else arrayShrinkTail E N ⟨some (.int N), some true, e, c⟩ false t (N - N)) : M Obj Bool) o
+          = Spec.defineOwnDefault E .length ⟨some (.int N), some false, e, c⟩ t o := by
+        intro e c
+        rw [← odp_eq E .length ⟨some (.int N), some false, e, c⟩ t (Or.inl rfl)]
+        simp only [bind, M.bind]
+        by_cases hc : Cok ⟨some (.int N), some true, e, c⟩
+        · have hc' : Cok ⟨some (.int N), some false, e, c⟩ := hc
+          rw [odp_length_ok E o N N _ t hl rfl hc]
+          simp only [Option.getD_some, hsame, Bool.not_true, Bool.false_eq_true, if_false, Nat.sub_self, arrayShrinkTail,
+            shrinkLoop, bind, M.bind, pure, M.pure, Bool.not_false, if_true]
+          have h1 := odp_length_ok E o N N ⟨some (.int N), some false, e, c⟩ false hl rfl hc'
+          rw [h1]
+          simp only []
+          rw [odp_idem E .length ⟨some (.int N), some false, e, c⟩ false t o _ (Or.inl rfl) h1]
+          rw [odp_length_ok E o N N ⟨some (.int N), some false, e, c⟩ t hl rfl hc']
+        · have hc' : ¬ Cok ⟨some (.int N), some false, e, c⟩ := hc
+          rw [odp_length_rej E o N true _ t hl rfl hc, odp_length_rej E o N true _ t hl rfl hc']
+          cases t <;> rfl
+      rcases hdw : d.w with _ | (_ | _)
+      · simpa using eqT ⟨some (.int N), none, d.e, d.c⟩ rfl (by simp)
+      · simpa using eqF d.e d.c
+      · simpa using eqT ⟨some (.int N), some true, d.e, d.c⟩ rfl (by simp)
+    · have hlt : ¬ N ≥ n := by omega
+      simp only [hlt, if_false]
+      cases w with
+      | false => simp
+      | true =>
+        simp only [Bool.not_true, Bool.false_eq_true, if_false]
+        rcases hdw : d.w with _ | (_ | _)
+        · simpa using chain ⟨some (.int N), none, d.e, d.c⟩ true rfl (by simp) rfl
+        · simpa using chain ⟨some (.int N), some true, d.e, d.c⟩ false rfl (by simp) rfl
+        · simpa using chain ⟨some (.int N), some true, d.e, d.c⟩ true rfl (by simp) rfl
+
+
+/-- keys on which otto's stringToArrayIndex and the §15.4 array-index test agree: "length", every canonical
+    numeral, and every other string that neither side takes for an index (the complement is the region
+    `index_noncanonical`) -/
+def KeyOK : Key → Prop
+  | .length => True
+  | .idx _ => True
+  | .name s => stringToArrayIndexRaw s < 0 ∧ Spec.arrayIndex? s = none
+
+/-- **arrayDefineOwnProperty = §15.4.5.1** on a well-formed array, for every key in `KeyOK`, every data descriptor
+    with optional fields, either throw flag — outside `length_same_value_not_writable`. -/
+theorem arrayDefineOwnProperty_refines (E : Env) (k : Key) (d : Desc) (t : Bool) (o : Obj) (hwf : WFArr o)
+    (hk : KeyOK k) (hng : d.v.isSome = true ∨ d.w.isSome = true)
+    (hreg : ¬ (k = .length ∧ lengthWritable o = false ∧ ∃ nv, d.v = some nv ∧ arrayUint32 E nv = some (arrLength o))) :
+    arrayDefineOwnProperty E k d t o = Spec.arrayDefineOwn E k d t o := by
+  unfold arrayDefineOwnProperty Spec.arrayDefineOwn
+  by_cases hkl : k = .length
+  · subst hkl
+    simp only [if_true]
+    cases hv : d.v with
+    | none =>
+      simp only
+      have : d.w.isSome = true := by rcases hng with h | h; rw [hv] at h; cases h; exact h
+      rw [odp_eq E .length d t (Or.inr this)]
+    | some nv =>
+      simp only [← length_range]
+      cases hu : arrayUint32 E nv with
+      | none => rfl
+      | some N =>
+        simp only
+        apply setLength_refines E d t N o hwf (arrayUint32_lt E nv N hu)
+        intro ⟨h1, h2⟩
+        exact hreg ⟨rfl, h2, nv, hv, by rw [hu, h1]⟩
+  · simp only [hkl, if_false]
+    cases k with
+    | length => exact absurd rfl hkl
+    | idx m =>
+      rw [stringToArrayIndex_idx]
+      simp only [Key.toBytes, arrayIndex_dec]
+      by_cases hm : m < 2^32 - 1
+      · have h0 : ((m : Nat) : Int) ≥ 0 := by omega
+        simp only [hm, if_true, h0, Int.toNat_natCast]
+        exact defineIndex_refines E m d t o hwf hng
+      · simp only [hm, if_false]
+        have : ¬ ((-1 : Int) ≥ 0) := by omega
+        simp only [this, if_false]
+        rw [odp_eq E _ d t hng]
+    | name s =>
+      obtain ⟨h1, h2⟩ := hk
+      have : ¬ (stringToArrayIndex (.name s) ≥ 0) := by
+        simp only [stringToArrayIndex, Key.toBytes]; omega
+      simp only [this, if_false, Key.toBytes, h2]
+      rw [odp_eq E _ d t hng]
+
+/-- hence §15.4.5.1 itself keeps the length invariant (transfer through the refinement) -/
+theorem wf_specArrayDefine (E : Env) (k : Key) (d : Desc) (t : Bool) (o : Obj) (hwf : WFArr o)
+    (hk : KeyOK k) (hng : d.v.isSome = true ∨ d.w.isSome = true)
+    (hreg : ¬ (k = .length ∧ lengthWritable o = false ∧ ∃ nv, d.v = some nv ∧ arrayUint32 E nv = some (arrLength o))) :
+    WFArr (stateOf (Spec.arrayDefineOwn E k d t o)) := by
+  rw [← arrayDefineOwnProperty_refines E k d t o hwf hk hng hreg]
+  exact wf_arrayDefine E o k d t hwf
+
+
 /-! ## Witnesses: each deviation region is inhabited (kernel-checked by `decide`) -/
 
 /-- a small array-like used by the witnesses and non-vacuity examples -/
